@@ -41,6 +41,16 @@ func ruleC14(c *Check, p *Prog) {
 		checkDecide(c, p, ref.Name, d, ref.S, ref.Items, nil, fastErrorReturn(d))
 		rl, _ := roundLenOf(p, d.Round)
 		checkAccumulate(c, p, ref.Name+"/worker", d, d.X.S, d.JobLoop.Body, d.RoundCall, d.RecvTok, d.Counters, d.Dist, true, rl)
+		// a verdict must be returned at all on a healthy (non-failing) periodic source: every token is dispatched,
+		// at least one worker exists, and every job signals completion on the path where the read succeeds
+		checkTokenBarrier(c, p, ref.Name, d, ref.S)
+		checkWorkers(c, p, "R-WORKERS", ref.Name, d)
+		if d.Read != nil {
+			rd := d.Read
+			checkDoneOnceUnder(c, p, "R-BARRIER", ref.Name+"/done-once-when-read-ok", d, func(S *Store) *Term {
+				return S.Cmp("==", S.mkOp("extract1", TRef, S.SymTerm(rd.Res)), S.Nil)
+			})
+		}
 	}
 	fn := p.Func(pkgDetect, "Threshold")
 	if fn != nil {
@@ -58,6 +68,8 @@ func ruleC14(c *Check, p *Prog) {
 	}
 	// (iii) single-shot: the verdict is P >= Alpha of the poker test of exactly the bytes read (the m-selection borders do not matter here)
 	c14Single(c, p)
+	// the one crash that periodic data is known to provoke: a block 0^(m-1)1 needs a shifted polynomial of degree m
+	checkLCScratch(c, p)
 	// (iv)
 	checkEquiv(c, p, "R-CHAIN-POKER-BYTES", "PokerTestBytes", eqSpec{Pkg: pkgRoot, Name: "PokerTestBytes", RefName: "PokerTestBytes", Dom: withParam(domLen(16, 5000), 1, 2, 9)}, "every byte (m=8) / both nibbles of every byte (m=4) is counted")
 }
@@ -77,4 +89,50 @@ func c14Single(c *Check, p *Prog) {
 			c.add(o.Status, o.Rule, strings.SplitN(o.Key, "@", 2)[1], o.Where, o.Detail)
 		}
 	}
+}
+
+// checkLCScratch: in linearComplexity the scratch slice that is written at a shifted index (j + N - m) has room for degree M.
+func checkLCScratch(c *Check, p *Prog) {
+	fn := p.Func(pkgRoot, "linearComplexity")
+	if fn == nil {
+		c.Fail("R-LC-SCRATCH", "linearComplexity", "-", "not found")
+		return
+	}
+	x := NewExt(p, NewStore(), numConfig(fn))
+	sum := x.Summarize(fn, nil, nil)
+	S := x.S
+	where := p.Pos(fn.Pos())
+	if len(sum.Undecided) > 0 || len(sum.Params) != 2 {
+		c.Undecided("R-LC-SCRATCH", "linearComplexity", where, "%s", strings.Join(sum.Undecided, "; "))
+		return
+	}
+	M := sum.Params[1]
+	n, bad := 0, []string{}
+	sum.Top.Events(func(e *Event, loops []*LoopS) {
+		if e.Kind != "store" || len(e.Path) != 1 {
+			return
+		}
+		// shifted index: depends on something other than the innermost iteration counter
+		plain := false
+		for _, l := range loops {
+			if e.Path[0] == S.SymTerm(l.Iter) {
+				plain = true
+			}
+		}
+		if plain || e.Path[0].IsConst() {
+			return
+		}
+		n++
+		al := objAlloc(sum, e.Root)
+		if al == nil || al.Len == nil || al.Len != S.Add(M, S.Int(1)) {
+			ln := "?"
+			if al != nil && al.Len != nil {
+				ln = al.Len.String()
+			}
+			bad = append(bad, fmt.Sprintf("store at shifted index %v into a slice of length %s at %s", e.Path[0], ln, p.Pos(e.Pos)))
+		}
+	})
+	c.Expect(n >= 1 && len(bad) == 0, "R-LC-SCRATCH", "linearComplexity", where,
+		"the slice written at the shifted index j+N-m has M+1 elements (a block of M-1 zeros followed by a one reaches index M)",
+		"shifted-index store without room for degree M: "+strings.Join(bad, "; "))
 }
